@@ -61,4 +61,21 @@ theorem matchPath_pct_encoding_full_fails :
     ∃ (l : List Bytes) (p e e' : Bytes), pathCase l p e ≠ pathCase l p e' :=
   ⟨wPctEnc.pats, wPctEnc.p1, wPctEnc.e1, wPctEnc.e2, by decide⟩
 
+/-! ### the code before the `fix:` commit "a wildcard label of the host matcher no longer matches
+    an empty label": a `*` label matched ANY request label, the empty one included -/
+
+def labelsMatchOld : List Bytes → List Bytes → Bool
+  | [], [] => true
+  | p :: ps, h :: hs => (p == [cStar] || equalFold p h) && labelsMatchOld ps hs
+  | _, _ => false
+
+/-- `Host: .example.com` matched the entry `*.example.com` in the old code and does not any more
+    (TLS server name matching never matched it: the mismatch bypassed client authentication);
+    an ordinary label still matches -/
+theorem wildcard_empty_label_old_code_matched :
+    labelsMatchOld (splitOn cDot [42, 46, 101, 120, 97, 109, 112, 108, 101, 46, 99, 111, 109]) (splitOn cDot [46, 101, 120, 97, 109, 112, 108, 101, 46, 99, 111, 109]) = true ∧
+    entryMatches [46, 101, 120, 97, 109, 112, 108, 101, 46, 99, 111, 109] [42, 46, 101, 120, 97, 109, 112, 108, 101, 46, 99, 111, 109] = false ∧ entryMatches [97, 46, 101, 120, 97, 109, 112, 108, 101, 46, 99, 111, 109] [42, 46, 101, 120, 97, 109, 112, 108, 101, 46, 99, 111, 109] = true ∧
+    labelsMatchOld (splitOn cDot [cStar]) (splitOn cDot []) = true ∧ entryMatches [] [cStar] = false := by
+  decide
+
 end CaddyModel.C06
